@@ -457,6 +457,11 @@ static ASMJIT_FAVOR_SIZE Error validate(InstDB::Mode mode, const BaseInst& inst,
               return make_error(Error::kInvalidPhysId);
             }
 
+            // ESP|RSP cannot be used as an index register (VSIB allows XMM4|YMM4|ZMM4).
+            if (ASMJIT_UNLIKELY(index_id == Gp::kIdSp && (index_type == RegType::kGp32 || index_type == RegType::kGp64))) {
+              return make_error(Error::kInvalidAddressIndex);
+            }
+
             combined_reg_mask |= Support::bit_mask<RegMask>(index_id);
           }
           else if (uint32_t(validation_flags & ValidationFlags::kEnableVirtRegs) == 0) {
